@@ -249,7 +249,7 @@ def findRoot (g : Graph) (rt : RootType) (mask : Array Bool) : Option Nat :=
   | .standard => (List.range n).find? fun j => !isMasked mask j
   | .minDeg =>
     ((List.range n).foldl (fun (acc : Option Nat × Nat) j =>
-      if g.degree j < acc.2 && !isMasked mask j then (some j, g.degree j) else acc) (none, n + 1)).1
+      if (g.degree j < acc.2 || acc.1.isNone) && !isMasked mask j then (some j, g.degree j) else acc) (none, n + 1)).1
   | .maxDeg =>
     ((List.range n).foldl (fun (acc : Option Nat × Nat) j =>
       if (g.degree j > acc.2 || acc.1.isNone) && !isMasked mask j then (some j, g.degree j) else acc) (none, 0)).1
